@@ -408,6 +408,28 @@ def block : Codec :=
   ctag (tag 32 0x11ef55aa) (recd [fld "global_id" (sint 32), fld "info" (ref blockInfo), fld "value_flow" (ref valueFlow),
     fld "state_update" cellRef, fld "extra" (ref blockExtra)])
 
+/-! ### shard state -/
+
+/-- `shared_lib_descr$00 lib:^Cell publishers:(Hashmap 256 True)` -/
+def libDescr : Codec := ctag (tag 2 0) (recd [fld "lib" cellRef, fld "publishers" (hashmap 256 nothing)])
+
+/-- the fields of `shard_state#9023afe2` (OutMsgQueueInfo is kept as an opaque cell, as the parser does) -/
+def shardStateUnsplitBody : Codec :=
+  recd [fld "global_id" (sint 32), fld "shard_id" shardIdent, fld "seq_no" (uint 32), fld "vert_seq_no" (uint 32),
+    fld "gen_utime" (uint 32), fld "gen_lt" (uint 64), fld "min_ref_mc_seqno" (uint 32), fld "out_msg_queue_info" cellRef,
+    fld "before_split" (uint 1), fld "accounts" (ref shardAccounts),
+    fld "_ref1" (ref (recd [fld "overload_history" (uint 64), fld "underload_history" (uint 64),
+      fld "total_balance" currencyCollection, fld "total_validator_fees" currencyCollection,
+      fld "libraries" (hashmapE 256 libDescr), fld "master_ref" (maybe blkMasterInfo)])),
+    fld "custom" (maybe (ref mcStateExtra))]
+
+def shardStateUnsplit : Codec := ctag (tag 32 0x9023afe2) shardStateUnsplitBody
+
+def shardStateAlts : List Alt :=
+  [(tag 32 0x9023afe2, "_", shardStateUnsplitBody),
+   (tag 32 0x5f327da5, "split_state", recd [fld "left" (ref shardStateUnsplit), fld "right" (ref shardStateUnsplit)])]
+def shardState : Codec := tagged shardStateAlts
+
 /-- the constructor tags of every `tagged` type above (and of the generic Hashmap / BinTree types) -/
 def allTagLists : List (String × List Bits) := [
   ("msgAddressExt", altTags (msgAddressExtAlts)),
@@ -433,6 +455,7 @@ def allTagLists : List (String × List Bits) := [
   ("catchainConfig", altTags (catchainConfigAlts)),
   ("consensusConfig", altTags (consensusConfigAlts)),
   ("blockCreateStats", altTags (blockCreateStatsAlts)),
+  ("shardState", altTags shardStateAlts),
   ("HmLabel", [[false], [true, false], [true, true]]),
   ("HashmapE/HashmapAugE/BinTree", [[false], [true]])]
 
